@@ -242,6 +242,11 @@ func (m *Msg) coq() string {
 	if m == nil || m.Nil {
 		return "None"
 	}
+	return lib.CoqSome(m.coqBare())
+}
+
+// coqBare: the mkMsg term itself (m must not be nil)
+func (m *Msg) coqBare() string {
 	tcs := make([]string, len(m.TCs))
 	for i, t := range m.TCs {
 		tcs[i] = t.coq()
@@ -271,8 +276,8 @@ func (m *Msg) coq() string {
 		}
 		extra = lib.CoqList(items)
 	}
-	return lib.CoqSome(lib.CoqApp("mkMsg", lib.CoqStr(m.Role), lib.CoqStr(m.Name), lib.CoqStr(m.TCID), lib.CoqStr(m.Content),
-		lib.CoqStrList(m.Multi), lib.CoqList(tcs), meta, extra))
+	return lib.CoqApp("mkMsg", lib.CoqStr(m.Role), lib.CoqStr(m.Name), lib.CoqStr(m.TCID), lib.CoqStr(m.Content),
+		lib.CoqStrList(m.Multi), lib.CoqList(tcs), meta, extra)
 }
 
 func msgsCoq(ms []*Msg) string {
@@ -451,6 +456,9 @@ func runListOn(api int, ls [][]*Msg) (MObs, string) {
 func runMsg(c *Case) lib.Result {
 	if c.Kind == "msglist" {
 		return runMsgList(c)
+	}
+	if c.Kind == "msgmap" {
+		return runMsgMap(c)
 	}
 	res := lib.Result{}
 	o, mut := runOn(c.API, c.Msgs)
@@ -834,6 +842,9 @@ func genMsgCase(r *lib.Rng, tier string) *Case {
 	maxChunks := 7
 	if tier == "thorough" {
 		maxChunks = 14
+	}
+	if r.Chance(1, 6) {
+		return genMsgMapCase(r, tier)
 	}
 	if r.Chance(1, 5) {
 		// message lists
